@@ -1,34 +1,81 @@
-"""Apply a seeded change to /repo, run the named checks, undo it. Usage:
-   python -m harness.seedtest <patch.diff> <pid> [<pid>...]   (run from /verif)"""
+"""Judge a seeded change without touching /repo: make a scratch worktree of /repo's HEAD, apply the
+patch there, run the named quick checks with VERIF_REPO pointing at it (evidence and replays go
+to a scratch directory), remove the worktree.
+Usage:  python -m harness.seedtest <patch.diff> <pid> [<pid>...]     (run from /verif)
+        python -m harness.seedtest --all          every seeded/<name>/ against the properties in its meta.json
+Exit 0 when every named check reported a VIOLATION (exit 1) for the change."""
+import json
+import os
+import shutil
 import subprocess
 import sys
+import tempfile
+
+ROOT = os.path.dirname(os.path.dirname(os.path.abspath(__file__)))
+
+
+def sh(cmd, cwd=None, env=None, timeout=3600):
+    p = subprocess.run(cmd, cwd=cwd, env=env, capture_output=True, text=True, timeout=timeout)
+    return p.returncode, p.stdout + p.stderr
+
+
+def judge(patch, pids, tier="quick", verbose=True):
+    wt = tempfile.mkdtemp(prefix="seedwt_")
+    os.rmdir(wt)
+    scratch = tempfile.mkdtemp(prefix="seedev_")
+    rc, out = sh(["git", "-C", "/repo", "worktree", "add", "-q", "--detach", wt, "HEAD"])
+    if rc != 0:
+        print("cannot create worktree:", out)
+        return None
+    res = {}
+    try:
+        rc, out = sh(["git", "apply", os.path.abspath(patch)], cwd=wt)
+        if rc != 0:
+            print("patch does not apply:", out[-500:])
+            return None
+        env = dict(os.environ, VERIF_REPO=wt, VERIF_EVIDENCE_DIR=os.path.join(scratch, "ev"),
+                   VERIF_REPLAY_DIR=os.path.join(scratch, "rp"))
+        for pid in pids:
+            rc, out = sh([os.path.join(ROOT, "check"), pid, "--tier", tier], cwd=ROOT, env=env)
+            lines = out.splitlines()
+            viol = [l for l in lines if l.startswith("VIOLATION")]
+            res[pid] = {"exit": rc, "violation_lines": len(viol)}
+            if verbose:
+                summ = [l for l in lines if l.startswith("[" + pid + "]")]
+                print(f"{pid}: exit={rc} violations={len(viol)} :: {summ[-1] if summ else (lines[-1] if lines else '')}")
+                if viol:
+                    i = lines.index(viol[0])
+                    print("   ", (lines[i + 1] if i + 1 < len(lines) else "")[:500])
+                if rc == 2:
+                    print("\n".join(lines[-15:]))
+    finally:
+        sh(["git", "-C", "/repo", "worktree", "remove", "--force", wt])
+        shutil.rmtree(wt, ignore_errors=True)
+        shutil.rmtree(scratch, ignore_errors=True)
+        sh(["git", "-C", "/repo", "worktree", "prune"])
+    return res
 
 
 def main():
+    if sys.argv[1] == "--all":
+        bad = 0
+        for name in sorted(os.listdir(os.path.join(ROOT, "seeded"))):
+            d = os.path.join(ROOT, "seeded", name)
+            try:
+                meta = json.load(open(os.path.join(d, "meta.json")))
+            except FileNotFoundError:
+                continue
+            pids = meta.get("detected_by") or [meta["breaks_property"]]
+            res = judge(os.path.join(d, "patch.diff"), pids, verbose=False)
+            ok = res is not None and any(r["exit"] == 1 for r in res.values())
+            print(f"{name}: {'caught' if ok else 'MISSED'} {res}")
+            bad += 0 if ok else 1
+        return 1 if bad else 0
     patch, pids = sys.argv[1], sys.argv[2:]
-    st = subprocess.run(["git", "-C", "/repo", "status", "--porcelain", "--untracked-files=no"], capture_output=True, text=True).stdout
-    if st.strip():
-        print("refusing: /repo has local modifications")
+    res = judge(patch, pids)
+    if res is None:
         return 2
-    r = subprocess.run(["git", "-C", "/repo", "apply", patch])
-    if r.returncode != 0:
-        print("patch does not apply")
-        return 2
-    try:
-        for pid in pids:
-            p = subprocess.run(["./check", pid, "--tier", "quick"], capture_output=True, text=True)
-            lines = p.stdout.splitlines()
-            viol = [l for l in lines if l.startswith("VIOLATION")]
-            print(f"{pid}: exit={p.returncode} violations={len(viol)} :: {lines[-1] if lines else ''}")
-            if viol:
-                i = lines.index(viol[0])
-                print("   ", (lines[i + 1] if i + 1 < len(lines) else "")[:600])
-            if p.returncode == 2:
-                print("\n".join(lines[-15:]), p.stderr[-1500:])
-    finally:
-        subprocess.run(["git", "-C", "/repo", "checkout", "--", "."])
-        subprocess.run(["git", "-C", "/verif", "checkout", "--", "evidence"], capture_output=True)
-    return 0
+    return 0 if all(r["exit"] == 1 for r in res.values()) else 1
 
 
 if __name__ == "__main__":
